@@ -439,3 +439,9 @@ _add_family(globals(), _ss, 'structstep', lambda case, impl: _ss.oracle(case, im
 # `_generate` with a key, `_divide` with inherited flow)
 from harness import dynflow as _df                  # noqa: E402
 _add_family(globals(), _df, 'dynflow', _df.oracle, share=0.1)
+
+
+# legacy derivers (Process subclasses that say they are steps) among the processes, serial or parallel
+from harness import legacypar as _lp                    # noqa: E402
+from harness.mixins import add_family as _add_family    # noqa: E402,F811
+_add_family(globals(), _lp, 'legacypar', _lp.oracle, share=0.04)
